@@ -8,9 +8,10 @@ from vlib import graphs as g, ctxrun, vsched, smallscope as ss, explore
 ID = "C16"
 LEVEL = "exploration"
 RULE = (
-    "stored layouts (every disjoint row set of <=3 rows x every law-abiding chunking, made through a real Context) x "
-    "{copy_to_frontend (target compressor x rechunk on/off x target size), stand-alone strax.rechunker (compressor x target "
-    "size x parallel {False, 'thread' under the controlled scheduler} x replace x dest), rechunk_on_load (source size 1,2 rows x "
+    "stored layouts (every disjoint row set of <=3 rows x every law-abiding chunking, also with doubled coordinates, plus five "
+    "layouts of 4-5 widely spaced rows so that one stored chunk is cut into >=3 pieces; made through a real Context) x "
+    "{copy_to_frontend (target compressor x rechunk on/off x target size x {one named target frontend, every writable frontend}), stand-alone strax.rechunker (compressor x target "
+    "size x parallel {False, 'thread', 'process' under the controlled scheduler: default schedule, and every schedule with <=1 delay for selected layouts} x replace x dest), rechunk_on_load (source size 1,2 rows x "
     "executor on/off), per-chunk make for every grouping of the dependency's chunks into consecutive jobs followed by "
     "merge_per_chunk_storage (both processors)}; oracle: the result loads to exactly the rows of the source / of the directly "
     "made data, destination metadata agrees with the destination files (chunk n, nbytes, start/end, first/last times, "
@@ -104,21 +105,30 @@ def load_rows(st, t, proc="single_thread", **kw):
         return ctxrun.run_controlled(f)
 
 
-def check_copy(res, iv, bounds, comp, rechunk, tr):
-    case = dict(op="copy", iv=iv, bounds=bounds, compressor=comp, rechunk=rechunk, target_rows=tr)
+def check_copy(res, iv, bounds, comp, rechunk, tr, two_targets=False):
+    case = dict(op="copy", iv=iv, bounds=bounds, compressor=comp, rechunk=rechunk, target_rows=tr, two_targets=two_targets)
     s = Setup(iv, bounds)
     s.make_all()
     before = snapshot(s.d1)
-    st = s.ctx([strax.DataDirectory(s.d1, readonly=True), strax.DataDirectory(s.d2)])
+    d3 = os.path.join(s.base, "c")
+    # two_targets: no target id given -> the data must arrive in EVERY writable frontend that does not have it yet
+    st = s.ctx([strax.DataDirectory(s.d1, readonly=True), strax.DataDirectory(s.d2)] + ([strax.DataDirectory(d3)] if two_targets else []))
     try:
         for t in ("src", "mp"):
-            st.copy_to_frontend(RUN, t, target_frontend_id=1, target_compressor=comp, rechunk=rechunk, rechunk_to_mb=g.target_size_rows(tr, t) if tr else strax.DEFAULT_CHUNK_SIZE_MB)
+            st.copy_to_frontend(RUN, t, target_frontend_id=None if two_targets else 1, target_compressor=comp, rechunk=rechunk, rechunk_to_mb=g.target_size_rows(tr, t) if tr else strax.DEFAULT_CHUNK_SIZE_MB)
     except Exception as e:
         res.violation("copy:" + ctxrun.exc_fp(e, 3), f"copy_to_frontend raised {type(e).__name__}: {e}"[:300], case)
         return
     if snapshot(s.d1) != before:
         res.violation("copy:source-changed", "source directory changed by copy_to_frontend", case)
-    st2 = s.ctx([strax.DataDirectory(s.d2)], forbid_creation_of=("src", "mp"))
+    for dest in [s.d2] + ([d3] if two_targets else []):
+        check_copy_dest(res, s, dest, bounds, comp, rechunk, tr, case)
+    if two_targets:
+        res.count("copies_to_two_targets")
+
+
+def check_copy_dest(res, s, dest, bounds, comp, rechunk, tr, case):
+    st2 = s.ctx([strax.DataDirectory(dest)], forbid_creation_of=("src", "mp"))
     for t in ("src", "mp"):
         try:
             ch = load_rows(st2, t)
@@ -131,7 +141,7 @@ def check_copy(res, iv, bounds, comp, rechunk, tr):
         if m or ch[0].start != bounds[0] * U or ch[-1].end != bounds[-1] * U:
             res.violation("copy:range", f"{t}: {m or 'overall range changed'}", case)
         key = st2.key_for(RUN, t)
-        md = md_vs_files(res, os.path.join(s.d2, str(key)), s.ref[t], case, "copy")
+        md = md_vs_files(res, os.path.join(dest, str(key)), s.ref[t], case, "copy")
         if md and comp and md["compressor"] != comp:
             res.violation("copy:compressor", f"destination metadata says {md['compressor']}, requested {comp}", case)
         res.add_set("copy_nchunks", len(ch))
@@ -252,11 +262,20 @@ def layouts(maxn=3, G=5):
             yield iv, b
 
 
+# layouts with 4-5 rows and every gap above the rechunker's minimum split gap: ONE Rechunker.receive() then returns several
+# chunks (a stored chunk larger than twice the target), which is where the saver's per-chunk bookkeeping can go wrong
+MANY = ((0, 2), (4, 6), (8, 10), (12, 14), (16, 18))
+MANY_LAYOUTS = [(MANY, (0, 20)), (MANY, (0, 8, 20)), (MANY[:4], (0, 16)), (MANY, (0, 3, 20)), (MANY, (0, 12, 12, 20))]
+
+
 def plan(tier, seed):
     NS = 32 if tier == "quick" else 128
     jobs = [("enum", sh, NS, tier, seed) for sh in range(NS)]
+    jobs += [("many", k, 0, tier, seed) for k in range(len(MANY_LAYOUTS))]
     if tier == "thorough":
-        jobs += [("sched", k, 0, tier, seed) for k in range(4)]
+        jobs += [("sched", k, 0, tier, seed) for k in range(len(SCHED_LAYOUTS))]
+    else:
+        jobs += [("sched", k, 0, tier, seed) for k in (0, 4, 5)]
     return jobs
 
 
@@ -268,13 +287,15 @@ def worker_init():
     F.print = lambda *a, **k: None
     FR.print = lambda *a, **k: None
     FR.ProcessPoolExecutor = vsched.VExecutor
+    vsched.install_fs_points()
     import functools
 
     if not isinstance(strax.utils.tqdm, functools.partial):
         strax.utils.tqdm = functools.partial(strax.utils.tqdm, file=open(os.devnull, "w"))
 
 
-SCHED_LAYOUTS = [(((0, 1), (2, 3), (4, 5)), (0, 2, 4, 5)), (((0, 2), (2, 3)), (0, 2, 5)), (((1, 2),), (0, 1, 3, 5)), (((0, 1), (1, 2), (4, 5)), (0, 1, 3, 5))]
+SCHED_LAYOUTS = [(((0, 1), (2, 3), (4, 5)), (0, 2, 4, 5)), (((0, 2), (2, 3)), (0, 2, 5)), (((1, 2),), (0, 1, 3, 5)), (((0, 1), (1, 2), (4, 5)), (0, 1, 3, 5)),
+                 (MANY, (0, 20)), (MANY, (0, 8, 20))]
 
 
 class RH(explore.Harness):
@@ -295,9 +316,30 @@ class RH(explore.Harness):
 def run_job(job):
     kind, sh, ns, tier, seed = job
     res = Result()
+    if kind == "many":
+        iv, b = MANY_LAYOUTS[sh]
+        for comp in (None, "zstd"):
+            for tr in (1, 2):
+                for par in (False, "thread", "process"):
+                    for rep in (False, True):
+                        res.evals += 1
+                        res.nt("many", sh, comp, tr, par, rep)
+                        check_rechunker(res, iv, b, comp, tr, par, rep)
+                for tt in (False, True):
+                    res.evals += 1
+                    res.nt("many-copy", sh, comp, tr, tt)
+                    check_copy(res, iv, b, comp or "blosc", True, tr, tt)
+        for rol in (1, 2):
+            for w in (None, 2):
+                res.evals += 1
+                check_rechunk_on_load(res, iv, b, rol, w)
+        return res
     if kind == "sched":
         lay = SCHED_LAYOUTS[sh]
-        r = explore.explore(lambda: RH(lay), regime="delay", bound=1, hashing=False, max_execs=20000)
+        # (file operations of the pool writers are scheduling points: see vsched.install_fs_points)
+        r = explore.explore(lambda: RH(lay), regime="delay", bound=1 if tier == "quick" else 2, hashing=False, max_execs=20000)
+        if r.cap_hit:
+            res.caps_hit.append(f"sched layout {sh}: {r.cap_hit}")
         res.evals += r.executions
         res.count("sched_executions", r.executions)
         for k, msg, choices in r.violations[:2]:
@@ -311,12 +353,12 @@ def run_job(job):
         j = i // ns + seed
         nchunks = len(b) - 1
         if tier == "quick":
-            copies = [(COMPS[j % 4], bool((j // 4) % 2), (1, 2, 0)[(j // 8) % 3])]
+            copies = [(COMPS[j % 4], bool((j // 4) % 2), (1, 2, 0)[(j // 8) % 3], bool((j // 5) % 2))]
             rcs = [(COMPS[(j + 1) % 4] if j % 3 else None, (1, 2, 0)[j % 3], (False, "thread", "process")[(j // 3) % 3], bool((j // 9) % 2))]
             rols = [((1, 2)[j % 2], (None, 2)[(j // 2) % 2])]
             grps = [gr for k, gr in enumerate(groupings(nchunks)) if (k + j) % 3 == 0] if nchunks <= 4 else []
         else:
-            copies = [(c, r, t) for c in COMPS for r in (False, True) for t in (1, 2, 0)]
+            copies = [(c, r, t, tt) for c in COMPS for r in (False, True) for t in (1, 2, 0) for tt in (False, True)]
             rcs = [(c, t, p, rp) for c in (None, "zstd", "bz2") for t in (1, 2, 0) for p in (False, "thread", "process") for rp in (False, True)]
             rols = [(a, w) for a in (1, 2) for w in (None, 2)]
             grps = list(groupings(nchunks)) if nchunks <= 4 else []
@@ -364,7 +406,7 @@ def replay(case):
     iv, b = tup(case.get("iv", ())), tup(case.get("bounds", ()))
     op = case["op"]
     if op == "copy":
-        check_copy(res, iv, b, case["compressor"], case["rechunk"], case["target_rows"])
+        check_copy(res, iv, b, case["compressor"], case["rechunk"], case["target_rows"], case.get("two_targets", False))
     elif op == "rechunker":
         check_rechunker(res, iv, b, case["compressor"], case["target_rows"], case["parallel"], case["replace"])
     elif op == "rechunk_on_load":
@@ -388,3 +430,7 @@ def sanity(total, tier):
             return f"{k}: rechunking never produced more than one chunk"
     if total.counters.get("per_chunk_groupings", 0) < 20:
         return "too few per-chunk groupings"
+    if total.counters.get("copies_to_two_targets", 0) < 20:
+        return "too few copies to two target frontends"
+    if not any(n >= 4 for tr, n in total.sets.get("rechunker_nchunks", ())):
+        return "the rechunker never produced >= 4 chunks (multi-chunk receive not exercised)"
